@@ -162,7 +162,8 @@ pub fn handle(line: &str) -> String {
                 let obj = cleanups[i].2.take();
                 let p = cleanups[i].0;
                 let forget = f[0] == "f";
-                if forget { cleanups[i].3 = true; }
+                // only a cleanup that still exists can be forgotten (x/f on a consumed one: no-op)
+                if forget && obj.is_some() { cleanups[i].3 = true; }
                 let (r, calls, err) = logged(std::panic::AssertUnwindSafe(move || {
                     match obj {
                         Some(c) if forget => c.forget(),
